@@ -527,6 +527,20 @@ def check(prog, rep):
     bucket_guard(prog, rep)
     implicit_raises(prog, rep)
     wrapper_handlers(prog, rep)
+    # every statement of the text is parsed and interpreted, every element of a list / dict / call is interpreted by its own
+    # class: a statement that is skipped (a break once RETURN is set) or an element whose value is taken without interpreting it
+    # (a variable's parse-time value) is text whose errors are never reported
+    rep.rule("ALL-TEXT", "query() handles every statement of the program (no break / return inside the statement loop); list, dict and call elements are evaluated through their own interpret()")
+    qf = prog.func("query", "aw_query.query2")
+    for lp_ in [x for x in walk_own(qf.node) if isinstance(x, (ast.For, ast.While))]:
+        early = [x for b_ in lp_.body for x in ast.walk(b_) if isinstance(x, (ast.Break, ast.Return))]
+        rep.check(not early, "ALL-TEXT", qf.short, "statement loop runs to the end", "no break / return", (f"the statement loop can stop at line {early[0].lineno} before every statement was parsed: malformed text or unknown names after that point are accepted silently and a value comes back where the property demands a parse / interpret error" if early else ""), qf.loc(early[0]) if early else qf.loc(lp_))
+    from .c11 import loops_rule
+
+    try:
+        loops_rule(prog, rep)
+    except Exception as ex_:  # C11's own check reports its analysis errors; here the rule is an extra
+        rep.undecided("ALL-TEXT", "aw_query.query2", "element evaluation", f"C11-LOOPS could not be evaluated on this tree ({type(ex_).__name__})", None)
     # expressions that raise a built-in error whenever they are evaluated (integer format code on a float, text + number)
     from ..rules_raise import certain_raises
 
